@@ -528,6 +528,15 @@ class UmModel:
 
 # ======================================================================================
 STALE_RE = re.compile(r"\bstale\b", re.I)
+_ADDR_RE = re.compile(r"\d+\.\d+\.\d+\.\d+(:\d+)?(/\d+)?|\[[0-9a-fA-F:]+\](:\d+)?(/\d+)?")
+
+
+def log_names_fn(msg, fn):
+	"""Does a (stale) report name frame number `fn`?  `fn=<n>` where the report uses that form,
+	otherwise the number as a whole word — never the digits of an address or port."""
+	if re.search(r"fn=\d", msg):
+		return re.search(r"fn=%d(?!\d)" % fn, msg) is not None
+	return re.search(r"(?<![\d.:])%d(?![\d.])" % fn, _ADDR_RE.sub(" ", msg)) is not None
 
 
 class Monitor:
@@ -787,7 +796,7 @@ class Monitor:
 			for S, b in definite + ambiguous:
 				hit = None
 				for l in logs:
-					if re.search(r"(?<!\d)%d(?!\d)" % b.fn, l):
+					if log_names_fn(l, b.fn):
 						hit = l
 						break
 				if hit is None:
@@ -802,7 +811,7 @@ class Monitor:
 					m.probe("wrap-ambiguous-stale")
 			for S, b in late:
 				for l in logs:
-					if re.search(r"(?<!\d)%d(?!\d)" % b.fn, l):
+					if log_names_fn(l, b.fn):
 						logs.remove(l)
 						S.queue.remove(b)
 						m.probe("wrap-ambiguous-stale")
